@@ -401,7 +401,10 @@ fn literals_writer_item(i: u64, ctx: &mut CaseCtx) -> CaseResult {
     }
     .clamp(1025, 131_072);
     let alpha = 2 + r.below(60);
-    let lits: Vec<u8> = (0..size).map(|_| (r.below(alpha) * r.below(alpha) / alpha.max(1)) as u8).collect();
+    let mut lits: Vec<u8> = (0..size).map(|_| (r.below(alpha) * r.below(alpha) / alpha.max(1)) as u8).collect();
+    // at least two distinct byte values (single-valued literals are a different property's business: C16/F8)
+    lits[0] = 0;
+    lits[1] = 1;
     let (sec, _table) = hk::compress_literals(&lits, None);
     let hdr = hk::parse_literals_header(&sec).map_err(|e| Failure::new("litwriter_compressed", format!("compress_literals({size}) header unreadable: {e}")))?;
     ensure!(hdr.1 as usize == size, "litwriter_compressed", "compress_literals({size}): header says regenerated {}", hdr.1);
